@@ -10,6 +10,7 @@ TITLE = 'crash-freedom scenarios run under the engine monitors (out-of-bounds / 
 TUS = maindeb.TUS + ['kerl']
 SHIMS = ['maindeb', 'valtf', 'spend', 'btcc', 'sess', 'kerlshim']
 NATIVE = True
+PARTS = ['C15tap']
 NATIVE_TUS = build.ALL_NATIVE + ['instance', 'functions', 'kerl']
 FUNCTIONS = ['main() of btcdeb.cpp', 'btcc pipeline', 'Value(const char*) and Value::parse_args on arbitrary characters', 'Value::do_addr_to_spk / do_bech32dec / do_base58chkdec', 'Instance::configure_tx_txin / setup_environment with inconsistent tx pairs',
              'Instance::eval followed by Instance::step', 'svf_parse_flags', 'kerl_make_argcv']
@@ -30,7 +31,6 @@ def setup(E):
     E.stubs['_ZNK7CPubKey6VerifyERK7uint256RKSt6vectorIhSaIhEE'] = verify
     E.stubs['_ZNK11XOnlyPubKey13VerifySchnorrERK7uint2564SpanIKhE'] = verify
     E.stubs['_ZN7CPubKey9CheckLowSERKSt6vectorIhSaIhEE'] = lambda E, st, fr, I, A: 1
-    for n in ('_ZNSt8ios_base7failureB5cxx11C1EPKcRKSt10error_code', '_ZNSt8ios_base7failureB5cxx11D1Ev'): E.stubs[n] = lambda E, st, fr, I, A: None
     E.stubs['_ZSt17iostream_categoryv'] = lambda E, st, fr, I, A: 0
     E.stubs['ispunct'] = lambda E, st, fr, I, A: 0
 
@@ -52,6 +52,7 @@ def obligations(tier, seed):
     for n in (1, 2): add('btcdeb/stack-sym%d' % n, kind='main', args=[('lit', '[OP_DUP OP_DROP]'), ('sym', n)], tty=(1, 0, 1))
     for n in (1, 3, 6): add('btcdeb/-f-sym%d' % n, kind='main', args=[('pref', '-f', n), ('lit', '[OP_1]')], tty=(1, 0, 1))
     add('btcdeb/-f-long', kind='main', args=[('lit', '-f+' + 'A' * 200), ('lit', '[OP_1]')], tty=(1, 0, 1))
+    for n in (508, 509, 520): add('btcdeb/script-push-%d-bytes' % n, kind='main', args=[('lit', '[0x' + 'ab' * n + ']')], tty=(1, 0, 1))          # the listing line of a long push (fixed line buffer in main())
     add('btcdeb/empty-stdin', kind='main', args=[], tty=(0, 1, 1), stdin=[])
     if tier != 'quick': add('btcdeb/stdin-sym', kind='main', args=[], tty=(0, 1, 1), stdin='sym3', timeout_s=1500)
     add('btcdeb/-s-sym', kind='main', args=[('pref', '-s', 2), ('lit', '[OP_1]')], tty=(1, 0, 1))
@@ -60,6 +61,8 @@ def obligations(tier, seed):
     add('tx/vout-index-out-of-range', kind='txfix', fx='p2pkh', mut='vout5')
     add('tx/vout-index-out-of-range-segwit', kind='txfix', fx='p2sh-p2wpkh', mut='vout5')
     add('tx/select-out-of-range', kind='txfix', fx='p2pkh', mut='select9')
+    for nm, tx in (('zero-inputs-zero-outputs', '02000000000000000000'), ('zero-inputs-flag-0-trailing', '0200000000000000000000'), ('zero-inputs-flag-1', '0200000000010001' + '00' * 8 + '0000000000')):
+        add('tx/' + nm, kind='main', args=[('lit', '--tx=' + tx), ('lit', '[OP_1]')], tty=(1, 0, 1))
     add('tx/amounts-short', kind='txfix', fx='p2sh-p2wpkh', mut='none')
     add('setup/p2sh-short-hash', kind='spend', mut='p2sh19')
     add('setup/p2sh-empty-push', kind='spend', mut='p2shempty')
